@@ -45,6 +45,7 @@ def _worker(prog, rep, job):
     fails = {}
     taints = {}
     groups = {}
+    aborts = {}
     ncases = 0
     for fam in families:
         base, _, lmode = fam.partition("@")
@@ -59,8 +60,17 @@ def _worker(prog, rep, job):
             except TaintAbort as e:
                 if gen_conc is None:
                     gen_conc = mk("concrete")
-                case = gen_conc[j]()
+                try:
+                    case = gen_conc[j]()
+                except AnalysisAbort as e2:
+                    aborts[str(e2)[:300]] = aborts.get(str(e2)[:300], 0) + 1
+                    continue
                 taints[str(e)[:200]] = taints.get(str(e)[:200], 0) + 1
+            except AnalysisAbort as e:
+                # this abstract input leaves the modelled subset: no verdict for it.  The run goes on - a violation met on another
+                # input is still a violation; without one the run ends as analysis-error (never as a pass)
+                aborts[str(e)[:300]] = aborts.get(str(e)[:300], 0) + 1
+                continue
             if case is None:
                 continue
             ncases += 1
@@ -79,7 +89,7 @@ def _worker(prog, rep, job):
                     k = (rule, case.qual)
                     c = fails.get(k)
                     fails[k] = (c[0] + 1, c[1], c[2]) if c else (1, case.inp, v.msg)
-    return fails, taints, ncases, groups
+    return fails, taints, ncases, groups, aborts
 
 
 def run_array_property(prog, rep, pid, families, aspects, floors=None):
@@ -89,7 +99,10 @@ def run_array_property(prog, rep, pid, families, aspects, floors=None):
     parts = pmap(_worker, jobs, prog, rep)
     fails, taints, total = {}, {}, 0
     groups = {}
-    for f, t, n, g in parts:
+    aborts = {}
+    for f, t, n, g, ab in parts:
+        for k, v in ab.items():
+            aborts[k] = aborts.get(k, 0) + v
         for gk, canons in g.items():
             tgt = groups.setdefault(gk, {})
             for c, where in canons.items():
@@ -117,6 +130,12 @@ def run_array_property(prog, rep, pid, families, aspects, floors=None):
                        f"labelled input stored as {i2} gives {sh(c2)[:300]}")
                 cnt = fails.get(k)
                 fails[k] = (cnt[0] + 1, cnt[1], cnt[2]) if cnt else (1, i1, msg)
+    if aborts:
+        if not fails:
+            raise AnalysisAbort(sorted(aborts)[0] + (f" [{sum(aborts.values())} abstract input(s) without a verdict]" if sum(aborts.values()) > 1 else ""))
+        rep.notes.append(f"{sum(aborts.values())} abstract input(s) left the modelled subset and have NO verdict (reported next to the violations "
+                         "found on other inputs): " + "; ".join(f"{k} (x{v})" for k, v in sorted(aborts.items())[:4]))
+        rep.exhaustive = False
     if taints:
         rep.notes.append("position/length-dependent control flow met in the analysed code; for those cases the verdict is "
                          "exhaustive over the enumerated representatives only (bounded), not for all lengths/positions: "
